@@ -427,7 +427,8 @@ func (g *genState) next() map[string]any {
 		if r.Chance(1, 10) {
 			t = hcommon.Pick(r, badURIs)
 		}
-		if r.Chance(1, 6) {
+		if r.Chance(1, 6) || (g.prop == "C18" && r.Chance(1, 2)) {
+			// observers of meta events; several subscriptions (exact and prefix) matching one meta topic
 			t = hcommon.Pick(r, metaTopics)
 			if r.Chance(1, 3) {
 				o["match"] = "prefix"
